@@ -56,7 +56,11 @@ def run_one(m):
             stm.apply(dst, m)
         except KeyError as e:
             return m["id"], "anchor-missing", str(e)
-        files = {e["file"] for e in m["edits"]}
+        import re as _re
+        if m.get("patch"):
+            files = set(_re.findall(r"^\+\+\+ b/src/(\S+)", open(os.path.join(HERE, m["patch"])).read(), _re.M))
+        else:
+            files = {e["file"] for e in m["edits"]}
         if any(f.endswith(".h") for f in files):
             from cifsa import build
             files = set(build.units_and_flags(srcdir=dst)[0])
